@@ -139,6 +139,13 @@ pub const POSITIONS: &[Pos] = &[
     Pos { name: "variant-ghost", host: "#[map(T)]\nenum S { A, #[ghost({ __E__ })] B(i32) }", tilde_ok: false, head: None, from: None, into: Some(("self", "")), existing: None },
     Pos { name: "variant-tuple-field", host: "#[map(T)]\nenum S { A, B(#[map({ __E__ })] i32) }", tilde_ok: true, head: None, from: Some(("value", "f0")), into: Some(("self", "f0")), existing: None },
     Pos { name: "variant-named-field", host: "#[map(T)]\nenum S { A, C { #[map(y, { __E__ })] x: i32 } }", tilde_ok: true, head: None, from: Some(("value", "y")), into: Some(("self", "x")), existing: None },
+    // renames, index renames and child paths combined with an expression (seed C10-03: index rename + child path)
+    Pos { name: "member-child-rename", host: "#[map(T)]\n#[into_existing(T)]\n#[child_parents(p: P, p.q: Q)]\nstruct S { #[child(p.q)] #[map(x, { __E__ })] a: i32, b: i32 }", tilde_ok: true, head: None, from: Some(("value", "value . p . q . x")), into: Some(("self", "self . a")), existing: Some(("self", "self . a")) },
+    Pos { name: "tuple-member-index-rename", host: "#[map(T)]\n#[into_existing(T)]\nstruct S(#[map(1)] i32, #[map(0, { __E__ })] i32);", tilde_ok: true, head: None, from: Some(("value", "value . 0")), into: Some(("self", "self . 1")), existing: Some(("self", "self . 1")) },
+    Pos { name: "tuple-child-index-rename", host: "#[map(T)]\n#[into_existing(T)]\n#[child_parents(1: P)]\nstruct S(i32, #[child(1)] #[map(0, { __E__ })] i32);", tilde_ok: true, head: None, from: Some(("value", "value . 1 . 0")), into: Some(("self", "self . 1")), existing: Some(("self", "self . 1")) },
+    Pos { name: "variant-tuple-field-index", host: "#[map(T)]\nenum S { A, B(#[map(1, { __E__ })] i32, #[map(0)] i32) }", tilde_ok: true, head: None, from: Some(("value", "f1")), into: Some(("self", "f0")), existing: None },
+    Pos { name: "variant-named-field-as-tuple", host: "#[map(T)]\nenum S { A, #[type_hint(as ())] C { #[map(0, { __E__ })] x: i32 } }", tilde_ok: true, head: None, from: Some(("value", "f0")), into: Some(("self", "x")), existing: None },
+    Pos { name: "parent-nested-rename", host: "#[map(T)]\n#[into_existing(T)]\nstruct S { #[parent([map(zz, { __E__ })] pa, pb)] p: P, b: i32 }", tilde_ok: true, head: None, from: Some(("value", "value . zz")), into: Some(("self", "self . p . pa")), existing: Some(("self", "self . p . pa")) },
     Pos { name: "variant-ghosts", host: "#[map(T)]\nenum S { A, #[ghosts(g: { __E__ })] C { x: i32 } }", tilde_ok: false, head: None, from: None, into: Some(("self", "")), existing: None },
 ];
 
